@@ -228,3 +228,66 @@ def string_literals(node, skip_tracing=True):
                 bs = [int(x) for x in m.group(1).split(",") if x.strip()]
                 out.append(_decode_template(bs))
     return out
+
+
+# ---- tiny symbolic walk over `if` conditions on boolean flag fields ----------------------------------
+
+def eval_flag_cond(cond, flags):
+    """Evaluate a condition built from `x.flag`, `!`, `&&`, `||` under a flag assignment; None if unknown."""
+    c = peel(cond)
+    if not isinstance(c, dict):
+        return None
+    k = c.get("k")
+    if k == "field" and c["n"] in flags:
+        return flags[c["n"]]
+    if k == "un" and c["op"] == "Not":
+        v = eval_flag_cond(c["e"], flags)
+        return None if v is None else (not v)
+    if k == "logic":
+        l, r = eval_flag_cond(c["l"], flags), eval_flag_cond(c["r"], flags)
+        if c["op"] == "And":
+            if l is False or r is False:
+                return False
+            return True if (l and r) else None
+        if l is True or r is True:
+            return True
+        return False if (l is False and r is False) else None
+    if k == "call" and c.get("fn", "").split("::")[-1] in flags:
+        return flags[c["fn"].split("::")[-1]]
+    return None
+
+
+def reachable_nodes(node, flags, in_loop=False):
+    """Expression nodes executed under a flag assignment: `if`s on known flags take one branch, everything else is
+    descended into. Yields (node, in_loop)."""
+    if isinstance(node, list):
+        for x in node:
+            yield from reachable_nodes(x, flags, in_loop)
+        return
+    if not isinstance(node, dict):
+        return
+    if is_tracing(node):
+        return
+    k = node.get("k")
+    if k == "if":
+        v = eval_flag_cond(node["cond"], flags)
+        if v is True:
+            yield from reachable_nodes(node["then"], flags, in_loop)
+            return
+        if v is False:
+            if node.get("else") is not None:
+                yield from reachable_nodes(node["else"], flags, in_loop)
+            return
+    if "k" in node:
+        yield node, in_loop
+    loop = in_loop or k == "loop"
+    for key, v in node.items():
+        if key == "pat":
+            continue
+        if isinstance(v, (dict, list)):
+            yield from reachable_nodes(v, flags, loop)
+
+
+def ctor_names(node, adt_suffix):
+    """Variant names of constructors of the given ADT appearing under node, in order."""
+    return [n["v"] for n in walk(node) if n.get("k") == "adt" and n["adt"].endswith(adt_suffix)]
